@@ -31,6 +31,12 @@ func parseAddress(address string) ([]byte, error) {
 		return leftPadBytes(bz)
 	}
 
+	for i := 0; i < len(address); i++ {
+		if address[i] >= 0x80 {
+			return nil, errors.New("address must be ASCII")
+		}
+	}
+
 	bz := base58.Decode(address)
 	return leftPadBytes(bz)
 }
